@@ -45,13 +45,19 @@ fn build_recording(spec: &Spec) -> (FnGraph<Node>, Vec<usize>) {
     }
     watch_begin(spec);
     let _guard = Guard;
-    let mut b = FnGraphBuilder::new();
-    let ids: Vec<FnId> = (0..spec.n).map(|i| b.add_fn(Node::new(i, spec.acc(i).to_vec()))).collect();
-    for &(x, y, contains) in &spec.edges {
-        let r = if contains { b.add_contains_edge(ids[x], ids[y]) } else { b.add_logic_edge(ids[x], ids[y]) };
-        r.expect("spec edges are acyclic");
-    }
-    (b.build(), ids.iter().map(|i| i.index()).collect())
+    // (provenance variants of Spec::prov are applied by graphs::build; the recording build is used
+    // by the checks that look at the builder's results, where only `redeclare` matters)
+    let (g, ids) = crate::graphs::build_plain_ids(spec);
+    let g = match spec.prov {
+        1 => g.clone(),
+        3 => {
+            let mut g = g;
+            let _ = std::ops::DerefMut::deref_mut(&mut g);
+            g
+        }
+        _ => g,
+    };
+    (g, ids)
 }
 
 fn ek(e: Edge) -> u8 {
@@ -198,7 +204,7 @@ pub fn check_built(spec: &Spec, props: &[u8], st: &mut Stats) {
             }
         }
         // the batch form add_fns must hand out the same ids and give the same graph
-        if (1..=4).contains(&n) {
+        if (1..=4).contains(&n) && spec.redeclare == 0 {
             let r = catch_quiet(|| {
                 let mut b = FnGraphBuilder::new();
                 let mk = |i: usize| Node::new(i, spec.acc(i).to_vec());
@@ -234,10 +240,11 @@ pub fn check_built(spec: &Spec, props: &[u8], st: &mut Stats) {
         // every accepted user edge exactly once with its kind; everything else Data
         let mut rest: Vec<(usize, usize, Edge)> = raw.clone();
         for &(a, b, c) in &spec.edges {
-            if let Some(p) = rest.iter().position(|e| *e == (a, b, kind_of(c))) {
+            let want = kind_of(spec.final_contains(c));
+            if let Some(p) = rest.iter().position(|e| *e == (a, b, want)) {
                 rest.remove(p);
             } else {
-                bviol(st, 11, spec, what, format!("user edge {a}->{b} ({:?}) missing or kind changed; built edges {raw:?}", kind_of(c)));
+                bviol(st, 11, spec, what, format!("user edge {a}->{b} ({want:?}, the kind it was last given with) missing or kind changed; built edges {raw:?}"));
             }
         }
         for e in &rest {
@@ -300,6 +307,11 @@ pub fn check_built(spec: &Spec, props: &[u8], st: &mut Stats) {
 
 /// C12 sensitivity: one changed function / endpoint / kind gives a graph that is `!=`.
 pub fn check_sensitivity(spec: &Spec, st: &mut Stats) {
+    if spec.redeclare != 0 {
+        // the comparison graphs are built from single calls, one per listed edge; the base spec
+        // (every edge given once) is part of the same space
+        return;
+    }
     let n = spec.n;
     let Ok((g, _)) = catch_quiet(|| build_recording(spec)) else { return };
     let what = "sensitivity";
@@ -788,7 +800,7 @@ pub fn replay_iteration_history(spec: &Spec, what: &str, st: &mut Stats) {
 
 /// C17 on one built graph.
 pub fn check_graph_info(spec: &Spec, yaml: bool, st: &mut Stats) {
-    let n = spec.n;
+    let n = spec.n + (spec.prov == 6) as usize;
     let Ok(g) = catch_quiet(|| timed_build(spec)) else { return };
     st.execs += 1;
     let raw = raw_edges(&g);
@@ -830,7 +842,7 @@ pub fn check_graph_info(spec: &Spec, yaml: bool, st: &mut Stats) {
         }
     };
     st.transitions += (n + raw.len()) as u64;
-    let want_nodes: Vec<(usize, Vec<u8>)> = (0..n).map(|i| (i * 7 + 1, spec.acc(i).to_vec())).collect();
+    let want_nodes: Vec<(usize, Vec<u8>)> = (0..n).map(|i| (i * 7 + 1, if i < spec.n { spec.acc(i).to_vec() } else { vec![] })).collect();
     if nodes != want_nodes || idx != (0..n).collect::<Vec<_>>() {
         bviol(st, 17, spec, what, format!("from_graph nodes {nodes:?} (indices {idx:?}), expected {want_nodes:?}"));
     }
@@ -1243,6 +1255,30 @@ pub fn run_declared_families(tier: &str, deadline: Instant, f: &(dyn Fn(&Spec, &
     specs.extend(many_type_specs());
     specs.extend(sparse_conflict_specs());
     specs.extend(size_threshold_specs(tier));
+    // every edge given more than once: batch / single-call forms, same / other kind (Spec::redeclare)
+    for s0 in crate::props_run::shapes_upto(2, 4, false).into_iter().filter(|s| !s.edges.is_empty()) {
+        for r in 1u8..=4 {
+            for p in [0usize, 2] {
+                let mut s = s0.clone();
+                s.redeclare = r;
+                s.decl = (0..s.n).map(|i| decl_pattern(p, i)).collect();
+                specs.push((format!("redeclare {r} pattern {p}"), s));
+            }
+        }
+    }
+    for k in [6usize, 9, 20] {
+        for (name, n, e) in declared_shapes(k) {
+            if e.is_empty() {
+                continue;
+            }
+            for r in 1u8..=4 {
+                let mut s = Spec::plain(n, &e);
+                s.redeclare = r;
+                s.decl = (0..n).map(|i| decl_pattern(2, i)).collect();
+                specs.push((format!("{name} redeclare {r}"), s));
+            }
+        }
+    }
     // graph values of unusual provenance (Spec::prov): clone, other thread, deref_mut, new(), default()
     for mut s in crate::props_run::provenance_specs(4) {
         for p in [0usize, 2] {
@@ -1274,7 +1310,7 @@ pub fn run_declared_families(tier: &str, deadline: Instant, f: &(dyn Fn(&Spec, &
     );
     st.capped |= capped;
     let label = format!(
-        "enumerated families: {n_decl} declared shapes (antichain, zigzag, descending chain, stars, fans, trees, layered; 6 access patterns; k in {ks:?}); 31..130 data types in 3 patterns; two writers 1..300 unrelated functions apart; all shapes on <= 4 functions as clones / built on another thread / after deref_mut() / FnGraph::new() / default(); declared antichain/chains/fans/star/layered shapes of 256, 257, 300 functions (255..513 thorough); arithmetic irregular DAGs n in {arith_ns:?} x (m,a,t) grid x 3 labellings x 3 access patterns"
+        "enumerated families: {n_decl} declared shapes (antichain, zigzag, descending chain, stars, fans, trees, layered; 6 access patterns; k in {ks:?}); 31..130 data types in 3 patterns; two writers 1..300 unrelated functions apart; all shapes on 2..4 functions and families with every edge given again (batch / single-call form, same / other kind); all shapes on <= 4 functions as clones / built on another thread / after deref_mut() / FnGraph::new() / default(); declared antichain/chains/fans/star/layered shapes of 256, 257, 300 functions (255..513 thorough); arithmetic irregular DAGs n in {arith_ns:?} x (m,a,t) grid x 3 labellings x 3 access patterns"
     );
     log.push(json!({"space": label, "inputs": st.execs, "completed": !st.capped, "wall_s": t0.elapsed().as_secs_f64()}));
     eprintln!("  [enumerated families, {} inputs] viol={} {}{:.1}s", specs.len(), st.viol_total, if st.capped { "CAPPED " } else { "" }, t0.elapsed().as_secs_f64());
@@ -1844,6 +1880,17 @@ pub fn run_build_props(prop: u8, tier: &str, deadline: Instant, total: &mut Stat
                 run_build_space(sp, deadline, &f, total, log);
             }
             run_declared_families(tier, deadline, &f, total, log);
+            {
+                // graphs extended through DerefMut after build(): GraphInfo mirrors `graph`
+                let mut st = Stats::default();
+                let specs = crate::props_run::extra_node_specs(4);
+                for s in &specs {
+                    check_graph_info(s, true, &mut st);
+                }
+                st.fold_hashes();
+                log.push(json!({"space": "all shapes on <= 4 functions with one node and an edge to it added through DerefMut after build()", "inputs": specs.len(), "completed": true}));
+                total.merge(st);
+            }
             if thorough {
                 let f2 = |s: &Spec, st: &mut Stats| check_graph_info(s, false, st);
                 run_build_space(&bs("n=5, T=1, structural comparison", 5, 1, 0, 0), deadline, &f2, total, log);
